@@ -3,7 +3,7 @@ From Coq Require Import String.
 From Coq Require Import ZArith List Bool.
 From LasV Require Import Lib.Base Lib.Layout Gen.GenHeaderLayout Gen.GenFormatBits Gen.GenDims Model.Las Model.LasSpec
   Model.WriterAlias Proofs.HeaderLen Proofs.VlrProofs Proofs.HeaderProofs Proofs.WriterProofs Proofs.RoundTripProofs
-  Proofs.WriterAliasProofs.
+  Proofs.WriterAliasProofs Proofs.StatsFoldProofs.
 Import ListNotations.
 Open Scope list_scope.
 Open Scope Z_scope.
@@ -119,6 +119,42 @@ Theorem C04_with_block_left_by_exception : forall ap st ops,
 Proof. exact with_block_left_by_exception. Qed.
 Print Assumptions C04_with_block_left_by_exception.
 
+(* ---------------------------------------------------------------------------------------------------------------- *)
+(* round 5: the running statistics (header.grow) under ANY block structure and for ANY value of the running box       *)
+(* ---------------------------------------------------------------------------------------------------------------- *)
+
+(* however a record is cut into blocks (of 2^20 points or of any other size, empty ones included), the point count after
+   folding them in is the count before plus the number of points - not a multiple of it *)
+Theorem C04_count_is_points_written : forall ap fmt h blocks st,
+  s_count (fold_left (grow ap fmt h) blocks st) = s_count st + len (concat blocks).
+Proof. exact fold_grow_count. Qed.
+Print Assumptions C04_count_is_points_written.
+
+(* block by block = at once, for the whole statistics record: count, extrema, the fifteen per-return counts *)
+Theorem C04_statistics_blockwise : forall ap, ap_ok ap -> forall fmt h blocks st,
+  length (s_max st) = 3%nat -> length (s_min st) = 3%nat ->
+  fold_left (grow ap fmt h) blocks st = grow ap fmt h st (concat blocks).
+Proof. exact fold_grow_blocks. Qed.
+Print Assumptions C04_statistics_blockwise.
+
+(* no value of the running box - all zeros after chunks lying on the origin, sentinels, anything - makes a later chunk
+   forget it: maxima only go up, minima only go down (in the order of binary64) *)
+Theorem C04_running_box_never_shrinks : forall ap fmt h blocks st i, (i < 3)%nat ->
+  f64_key (nth i (s_max st) 0) <= f64_key (nth i (s_max (fold_left (grow ap fmt h) blocks st)) 0)
+  /\ f64_key (nth i (s_min (fold_left (grow ap fmt h) blocks st)) 0) <= f64_key (nth i (s_min st) 0).
+Proof. exact fold_grow_box_never_shrinks. Qed.
+Print Assumptions C04_running_box_never_shrinks.
+
+(* ... and the box after a chunk contains the image of that chunk's own largest and smallest stored integers *)
+Theorem C04_box_contains_chunk : forall ap fmt h st r0 recs i, (i < 3)%nat ->
+  let sc := aint h (axis_name "scales" i) in
+  let off := aint h (axis_name "offsets" i) in
+  let st' := grow ap fmt h st (r0 :: recs) in
+  f64_key (ap sc off (zmax_list (rec_coord i r0) (map (rec_coord i) (r0 :: recs)))) <= f64_key (nth i (s_max st') 0)
+  /\ f64_key (nth i (s_min st') 0) <= f64_key (ap sc off (zmin_list (rec_coord i r0) (map (rec_coord i) (r0 :: recs)))).
+Proof. exact grow_box_contains_chunk. Qed.
+Print Assumptions C04_box_contains_chunk.
+
 (* non-vacuity: a concrete 1.2 header, two chunks and an empty one, accepted, equal to the one-shot file *)
 Definition ex_h : assoc := [("version.major", VInt 1); ("version.minor", VInt 2); ("uuid", VBytes (repeat 0 16));
   ("system_identifier", VBytes [79; 84]); ("generating_software", VBytes []);
@@ -149,6 +185,19 @@ Example C04_alias_nonvacuous :
               | Ok f => list_eqb f (w_file (ss_w st)) && (len outs =? 3) && is_ok r
                         && negb (list_eqb (map v_rid (cw_vlrs (ss_c st))) [])
               | Err _ => false end
+  | Err _ => false
+  end = true.
+Proof. vm_compute. reflexivity. Qed.
+
+(* non-vacuity of the round-5 theorems: a chunk lying exactly on the origin, an empty one, then a chunk whose box does not
+   contain the origin: the origin stays in the box, the count is 3, and the file is the one-shot file *)
+Definition ex_p (x : Z) : list Z := le_enc 4 x ++ le_enc 4 x ++ le_enc 4 x ++ repeat 1 8.
+Example C04_origin_nonvacuous :
+  match wopen ex_h [] 0 with
+  | Ok s0 => let '(s, outs) := wrun ex_ap s0 (chunk_ops [[ex_p 0]; []; [ex_p 5; ex_p 9]] []) in
+             forallb is_ok outs && list_eqb (s_min (w_st s)) [0; 0; 0] && list_eqb (s_max (w_st s)) [9; 9; 9] && (s_count (w_st s) =? 3)
+             && match file_of ex_ap ex_h [] 0 [ex_p 0; ex_p 5; ex_p 9] [] with
+                | Ok f => list_eqb f (w_file s) | Err _ => false end
   | Err _ => false
   end = true.
 Proof. vm_compute. reflexivity. Qed.
